@@ -438,6 +438,11 @@ pub fn unknown_conv(u: &Unknown, data: &[u8], pfx: &str, panics: &mut Vec<String
                     &mut pp,
                 )
             });
+            // the same unknown packet wrapped into the generic enum first, then converted
+            row.put(&format!("{}_pkt", $name), || {
+                let pkt = Packet::from(Unknown::parse(u.data()).unwrap());
+                conv_res(pkt.try_as::<$ty>(), |p| $view(p, data, &format!("{pfx}conv.{}_pkt.", $name)), &mut pp)
+            });
         };
     }
     cv!("sr", SenderReport, sr_view);
